@@ -335,6 +335,9 @@ func checkC04(c *Check) {
 	checkRunnerLiterals(c)
 
 	c.Extra["assignments_enumerated"] = x.nEnum
+
+	// the state requested is the state of THIS request (container path): no field inherited from the previous message
+	checkFreshDecode(c, "O11/request-is-fresh")
 }
 
 // storesToGlobal lists stores to a package-level variable outside package initialisers.
